@@ -12,6 +12,8 @@ type Settings struct {
 	ByMood   map[Mood]int
 	ByUnit   map[unit.Unit]bool
 	Flags    map[bool]int `json:"-" gomacro-data:"ignore"`
+	Phase    Phase
+	Phases   []Phase
 	Grade    Grade
 	Grades   [3]Grade
 	Single   Single
